@@ -137,7 +137,11 @@ func (c *clause) compileHeadArg(a Term, env *Env) {
 		}
 		c.bytecode = append(c.bytecode, instruction{opcode: opPop})
 	case *partial:
-		prefix := a.Compound.(list)
+		var prefix []Term
+		iter := ListIterator{List: a.Compound}
+		for iter.Next() {
+			prefix = append(prefix, iter.Current())
+		}
 		c.bytecode = append(c.bytecode, instruction{opcode: opGetPartial, operand: Integer(len(prefix))})
 		c.compileHeadArg(*a.tail, env)
 		for _, arg := range prefix {
